@@ -9,6 +9,7 @@ from vlib import gen
 from vlib.runner import Stats, Violation, sut
 
 ID = "C13"
+DETERMINISTIC = True  # pure in-memory functions judged by a pure oracle: see runner (a failure seen once counts)
 RULE = (
     "case = instant (int us 1970..2100, boundary-biased) x UTC offset (whole minutes in [-14h,+14h]) x presentation "
     "(aware datetime at a fixed offset | aware datetime in a real DST-observing zone from zoneinfo, instants biased to the repeated/skipped hour so that fold=1 occurs | ISO-8601 spelling: T/space, 0/3/6 fraction digits, Z, +hh:mm, +hhmm; minimal fractions such as .5 or .87), given to the constructor and by assignment to an existing event; x duration (int s | float s | timedelta, "
